@@ -464,6 +464,25 @@ pub struct HistCase {
     pub align_a: bool,
     pub align_b: bool,
     pub lines: Vec<String>,
+    /// voice sets: B also replaces ONE interpolation weight vector
+    /// (0 = duration, 1..=streams = parameter of stream i-1, then GV of each stream)
+    pub weights_b: Option<(usize, Vec<f64>)>,
+}
+
+fn apply_weights_b(c: &HistCase, e: &mut Engine) -> Result<(), Failure> {
+    if let (Some((k, w)), VoiceChoice::GeneratedSet { voices, .. }) = (&c.weights_b, &c.voice) {
+        let ns = voices[0].streams.len();
+        let iw = e.condition.get_interporation_weight_mut();
+        let r = if *k == 0 {
+            iw.set_duration(w)
+        } else if *k <= ns {
+            iw.set_parameter(*k - 1, w)
+        } else {
+            iw.set_gv(*k - 1 - ns, w)
+        };
+        r.map_err(|e| Failure::new("valid-weights-rejected", e.to_string()))?;
+    }
+    Ok(())
 }
 
 pub fn decode_hist(t: &mut Tape) -> HistCase {
@@ -500,7 +519,15 @@ pub fn decode_hist(t: &mut Tape) -> HistCase {
     let frame_100ns = fp as f64 * 1e7 / rate as f64;
     let typical = nstate as f64 * t.log_uniform(0.8, 3.0);
     let times = if t.chance(0.75) { super::c09::gen_text_times(t, n, frame_100ns, typical, 2.0e8) } else { vec![None; n] };
-    HistCase { voice, cond_a, cond_b, align_a, align_b, lines: super::c09::timed_lines(&labels, &times) }
+    let weights_b = match &voice {
+        VoiceChoice::GeneratedSet { voices, .. } if t.chance(0.7) => {
+            let ns = voices[0].streams.len();
+            let k = if t.chance(0.5) { 1 + ns + t.below(ns) } else { t.below(1 + ns) };
+            Some((k, crate::engine_case::simplex_weights(t, voices.len())))
+        }
+        _ => None,
+    };
+    HistCase { voice, cond_a, cond_b, align_a, align_b, lines: super::c09::timed_lines(&labels, &times), weights_b }
 }
 
 fn digest(w: &[f64]) -> u64 {
@@ -518,6 +545,7 @@ fn hist_engine(c: &HistCase, b: bool) -> Result<Engine, Failure> {
     if b {
         c.cond_b.apply(&mut e);
         e.condition.set_phoneme_alignment_flag(c.align_b);
+        apply_weights_b(c, &mut e)?;
     } else {
         c.cond_a.apply(&mut e);
         e.condition.set_phoneme_alignment_flag(c.align_a);
@@ -560,7 +588,7 @@ pub fn fresh_digests(tapes: &[Vec<u32>]) -> Vec<String> {
         .collect()
 }
 
-const HIST_RULE: &str = "history independence against a FRESH PROCESS: case = (voice, condition A, condition B differing from A in 1..3 fields such as frame period / sampling rate / speed / alpha / thresholds / alignment flag, 1..5 label lines mostly with time stamps). A child process computes digest(A(L)), digest(B(L)) in that order with no other history; the parent - after all other C03 work, i.e. with a long history - computes B(L), A(L), B(L) on separately built engines, and A(L) then B(L) on ONE engine moved from A to B by setters, and must obtain the same digests. Detects hidden state keyed by only a part of the inputs (e.g. a cache keyed by the label text). Non-trivial: every compared case; distinct by case";
+const HIST_RULE: &str = "history independence against a FRESH PROCESS: case = (voice, condition A, condition B differing from A in 1..3 fields such as frame period / sampling rate / speed / alpha / thresholds / alignment flag, and for voice sets also in ONE interpolation weight vector (duration, a stream's parameters, or a stream's GV), 1..5 label lines mostly with time stamps). A child process computes digest(A(L)), digest(B(L)) in that order with no other history; the parent - after all other C03 work, i.e. with a long history - computes B(L), A(L), B(L) on separately built engines, and A(L) then B(L) on ONE engine moved from A to B by setters, and must obtain the same digests. Detects hidden state keyed by only a part of the inputs (e.g. a cache keyed by the label text). Non-trivial: every compared case; distinct by case";
 
 fn history_independence(s: &mut Session) {
     use proptest::strategy::{Strategy, ValueTree};
@@ -624,6 +652,7 @@ fn history_independence(s: &mut Session) {
                                 let a3 = run(&ec)?;
                                 c.cond_b.apply(&mut ec);
                                 ec.condition.set_phoneme_alignment_flag(c.align_b);
+                                apply_weights_b(&c, &mut ec)?;
                                 let b3 = run(&ec)?;
                                 ensure!(a3 == da, "history-dependence", "condition A on a third engine differs from the fresh process (labels {:?})", c.lines);
                                 ensure!(b3 == db, "history-dependence", "an engine that served the request under condition A and was then moved to condition B by setters renders B differently from a fresh engine set to B (labels {:?})", c.lines);
@@ -654,6 +683,7 @@ fn history_independence(s: &mut Session) {
                 rep.class_if(c.lines.iter().any(|l| l.contains(' ')), "timed-labels");
                 rep.class_if(c.align_a || c.align_b, "alignment-on");
                 rep.class_if(c.cond_a.fperiod != c.cond_b.fperiod || c.cond_a.rate != c.cond_b.rate, "frame-rate-differs");
+                rep.class_if(c.weights_b.is_some(), "interpolation-weights-differ");
                 s.record("history-independence", HIST_RULE, crate::util::hash64(tape), &rep, || serde_json::to_value(&c).unwrap_or(json!(null)));
             }
             Some(Err(f)) => {
